@@ -119,11 +119,13 @@ theorem flatMap_spaceP_wf (s d : Int) (hd : 0 < d) (mode : SpaceMode) (es : List
     obtain ⟨iv, hiv, hxp⟩ := List.mem_flatMap.1 hx
     rw [(spaceP_props s d hd mode iv x (hp iv hiv) hxp).2.1]; exact hs iv hiv
 
-/-- **insertSpace**: on a well-formed tier with `lo ≤ s` and `d > 0` the call succeeds unless the mode is `error`
+/-- **insertSpace**: on a well-formed tier, for ANY insertion time `s` (before the span, inside it, beyond its end —
+the former hypothesis `lo ≤ s` was never used) and `d > 0` (the property's quantifier; the code does not check the
+sign of `duration`, see lean/HYPOTHESES.md) the call succeeds unless the mode is `error`
 and an interval straddles `s`; the result is well-formed, every entry is replaced by its `spaceP` image (entries
 ending at or before `s` unchanged, entries starting at or after `s` moved by exactly `d`, the straddler treated
 per mode), the span start is unchanged and the span end grows by exactly `d`. -/
-theorem insert_spec (t : ITier Int) (hwf : t.WF) (s d : Int) (hd : 0 < d) (hlo : t.lo ≤ s) (mode : SpaceMode)
+theorem insert_spec (t : ITier Int) (hwf : t.WF) (s d : Int) (hd : 0 < d) (mode : SpaceMode)
     (hm : mode = .error → ∀ iv ∈ t.es, ¬ Straddles s iv) :
     ∃ t', t.insertSpace s d mode = .ok t' ∧ t'.WF ∧ t'.name = t.name ∧
       t'.es = t.es.flatMap (spaceP s d mode) ∧ t'.lo = t.lo ∧ t'.hi = t.hi + d := by
@@ -237,13 +239,16 @@ theorem insert_split_gap (t : ITier Int) (hwf : t.WF) (s d : Int) (hd : 0 < d) (
 
 /-- **inverse**: for `stretch` and `split`, erasing the inserted region with shrinking restores the original
 label-at-every-time function and the original span.  No hypothesis about the intermediate tier: `t1` is whatever
-`insertSpace` returned. -/
+`insertSpace` returned.  `lo ≤ s ≤ hi` is the property's quantifier ("all s in or at the edges of the span") and is
+needed: for `s` outside the span the inserted region `[s, s + d]` sticks out of the new span `[lo, hi + d]`, the shrink
+step cuts out only the part inside it (fix A28) and the span end does not come back to `hi` (replayed:
+`IntervalTier('T',[(3,5,'a')],2,10).insertSpace(0,1,'stretch').eraseRegion(0,1,'truncate',True)` ends at 11, not 10). -/
 theorem insert_erase_inverse (t : ITier Int) (hwf : t.WF) (s d : Int) (hd : 0 < d) (hlo : t.lo ≤ s) (hhi : s ≤ t.hi)
     (mode : SpaceMode) (hmode : mode = .stretch ∨ mode = .split)
     (t1 : ITier Int) (h1 : t.insertSpace s d mode = .ok t1) :
     ∃ t2, t1.eraseRegion s (s + d) .truncate true = .ok t2 ∧ t2.WF ∧ t2.lo = t.lo ∧ t2.hi = t.hi ∧
       ∀ x, labelAt t2.es x = labelAt t.es x := by
-  obtain ⟨t1', e1, w1, _, es1, lo1, hi1⟩ := insert_spec t hwf s d hd hlo mode (by rcases hmode with rfl | rfl <;> simp)
+  obtain ⟨t1', e1, w1, _, es1, lo1, hi1⟩ := insert_spec t hwf s d hd mode (by rcases hmode with rfl | rfl <;> simp)
   rw [h1] at e1; cases e1
   obtain ⟨u, t2, hu, e2, w2, _, lo2, hi2, _, _⟩ :=
     C07.erase_shrink t1 w1 s (s + d) (by omega) (by rw [lo1]; exact hlo) (by rw [hi1]; omega) .truncate (by decide)
@@ -260,8 +265,9 @@ theorem insert_erase_inverse (t : ITier Int) (hwf : t.WF) (s d : Int) (hd : 0 < 
     simp only [this, if_false]
     congr 1; omega
 
-/-- **point tiers**: points at `t ≤ s` stay, later points move by exactly `d`; labels and order kept; span end `+ d` -/
-theorem pinsert_spec (t : PTier Int) (hwf : t.WF) (s d : Int) (hd : 0 < d) (hlo : t.lo ≤ s) :
+/-- **point tiers**, ANY insertion time `s`: points at `t ≤ s` stay, later points move by exactly `d`; labels and order
+kept; span end `+ d` -/
+theorem pinsert_spec (t : PTier Int) (hwf : t.WF) (s d : Int) (hd : 0 < d) :
     ∃ t', t.insertSpace s d = .ok t' ∧ t'.WF ∧ t'.name = t.name ∧
       t'.ps = t.ps.map (fun p => if p.t ≤ s then p else ⟨p.t + d, p.l⟩) ∧ t'.lo = t.lo ∧ t'.hi = t.hi + d := by
   have hsorted : (t.ps.map (fun p => if p.t ≤ s then p else (⟨p.t + d, p.l⟩ : Pt Int))).Pairwise
@@ -283,7 +289,7 @@ theorem pinsert_spec (t : PTier Int) (hwf : t.WF) (s d : Int) (hd : 0 < d) (hlo 
   exact ⟨t', by simpa [PTier.insertSpace, PTier.new] using e1, e2, e4, e3, e5, e6⟩
 
 /-! ## non-vacuity -/
-example : C07.exTier.WF ∧ (0 : Int) < 15 ∧ C07.exTier.lo ≤ 20 := ⟨C07.exTier_wf, by decide, by decide⟩
+example : C07.exTier.WF ∧ (0 : Int) < 15 := ⟨C07.exTier_wf, by decide⟩
 #guard (C07.exTier.insertSpace 20 15 .split).toOption.map (·.es) ==
   some [⟨10, 20, "a"⟩, ⟨35, 45, "a"⟩, ⟨45, 75, "b"⟩, ⟨95, 105, "c"⟩]
 #guard ((C07.exTier.insertSpace 20 15 .split).toOption.bind fun t => (t.eraseRegion 20 35 .truncate true).toOption).map
